@@ -3,7 +3,14 @@ package corr
 // Rng is a splitmix64 generator: every random choice of a run derives from VERIF_SEED through it.
 type Rng struct{ s uint64 }
 
-func NewRng(seed uint64) *Rng { return &Rng{s: seed*0x9E3779B97F4A7C15 + 0x1234567} }
+func NewRng(seed uint64) *Rng {
+	// scramble the seed first: consecutive seeds must not give shifted copies of one stream
+	z := seed + 0x632BE59BD9B4E019
+	z = (z ^ (z >> 33)) * 0xFF51AFD7ED558CCD
+	z = (z ^ (z >> 33)) * 0xC4CEB9FE1A85EC53
+	z ^= z >> 33
+	return &Rng{s: z}
+}
 
 func (r *Rng) Next() uint64 {
 	r.s += 0x9E3779B97F4A7C15
